@@ -418,10 +418,24 @@ def _callers_sanitise(ck: Check, fm: FuncModel, depth: int) -> tuple[bool, str]:
                 names.add(tg.id)
         else:
             return False, f"{g.f.qualname} uses the result of {fm.f.qualname} in `{text(par)[:40]}`"
+        # a tainted value appended to another local list taints that list
+        grew = True
+        while grew:
+            grew = False
+            for n in own_walk(g.f.node):
+                if isinstance(n, ast.Name) and n.id in names and isinstance(n.ctx, ast.Load):
+                    p2 = g.f.parents.get(n)
+                    if isinstance(p2, ast.Call) and isinstance(p2.func, ast.Attribute) and p2.func.attr in ("append", "extend") \
+                            and n in p2.args and isinstance(p2.func.value, ast.Name) and p2.func.value.id not in names:
+                        names.add(p2.func.value.id)
+                        grew = True
         for n in own_walk(g.f.node):
             if isinstance(n, ast.Name) and n.id in names and isinstance(n.ctx, ast.Load):
                 p2 = g.f.parents.get(n)
                 if isinstance(p2, ast.Attribute):
+                    continue
+                if isinstance(p2, ast.Call) and isinstance(p2.func, ast.Attribute) and p2.func.attr in ("append", "extend") \
+                        and n in p2.args and isinstance(p2.func.value, ast.Name) and p2.func.value.id in names:
                     continue
                 if isinstance(p2, ast.Return):
                     ok, why = _callers_sanitise(ck, g, depth + 1)
@@ -507,10 +521,9 @@ def n2(ck: Check) -> None:
     ok = False
     why = "the sub-space list is not sorted"
     if isinstance(loop.iter, ast.Name):
-        defs = fm.cfg.reaching_defs(loop.iter.id, hn)
+        defs = fm.value_defs(loop.iter.id, hn)
         ok = bool(defs)
-        for d in defs:
-            v = d.ast.value if d.kind == "stmt" and isinstance(d.ast, (ast.Assign, ast.AnnAssign)) else None
+        for d, v in defs:
             if not (isinstance(v, ast.Call) and callee_name(v) == "sorted"):
                 ok = False
                 why = (f"child sub-spaces reach node creation in solver order (line {d.lineno}): the two enumeration "
